@@ -43,7 +43,7 @@ func runC19(a *Args) error {
 		"error classes are recognised by errors.Is / errors.As and by the fixed message prefixes of registry/repository.go",
 		"no deletion and no concurrent writer during a history",
 	}
-	n := 420
+	n := 1200
 	if a.Tier == "thorough" {
 		n = 9000
 	}
